@@ -1,17 +1,2 @@
-"""C02 - session lockstep: each call returns exactly the replies to its own commands."""
-from props.cligen import *
-
-def gen(ctx):
-    rng = ctx["rng"]; tier = ctx["tier"]
-    n = 400 if tier == "quick" else 20000
-    for i in range(n):
-        cfg0, ops = random_history(rng, "C02")
-        yield line(cfg0, ops)
-
-PROP = {
-    "id": "C02",
-    "stages": [{"name": "client", "target": "h_client", "gen": gen, "shard": 20}],
-    "trivial_tags": ["short"],
-    "rule": "random histories of API calls against the scripted RFC-conformant server (in-memory control channel, loopback data peer)",
-    "assumptions": [],
-}
+from props.client_props import gen_c02
+PROP = {"id": "C02", "stages": [{"name": "client", "target": "h_client", "gen": gen_c02, "shard": 12}], "trivial_tags": [], "rule": "", "assumptions": []}
